@@ -51,6 +51,8 @@ impl<A: Ord + Clone> CmRDT for GCounter<A> {
     open spec fn cm_pre(&self, op: &Dot<A>) -> bool { true }
     open spec fn cm_post(old_: &Self, op: &Dot<A>, new_: &Self) -> bool { true }
     open spec fn cm_vpre(&self, op: &Dot<A>) -> bool { true }
+    open spec fn cm_vhyp() -> bool { true }
+    open spec fn cm_vflag(&self, op: &Self::Op) -> bool { false }
 
 //@extract fn src/gcounter.rs "CmRDT for GCounter" validate_op
     fn validate_op(&self, _op: &Self::Op) -> /*@ (r: @*/ Result<(), Self::Validation> /*@ ) @*/
@@ -74,6 +76,8 @@ impl<A: Ord + Clone> CvRDT for GCounter<A> {
     closed spec fn cv_inv(&self) -> bool { self.inner.cv_inv() }
     open spec fn cv_pre(&self, other: &Self) -> bool { true }
     open spec fn cv_post(old_: &Self, other: &Self, new_: &Self) -> bool { true }
+    open spec fn cv_vhyp() -> bool { true }
+    open spec fn cv_flag(&self, other: &Self) -> bool { false }
 
 //@extract fn src/gcounter.rs "CvRDT for GCounter" validate_merge
     fn validate_merge(&self, _other: &Self) -> /*@ (r: @*/ Result<(), Self::Validation> /*@ ) @*/
